@@ -2,6 +2,9 @@ package main
 
 import (
 	"go/token"
+	"go/types"
+	"os"
+	"path/filepath"
 	"strings"
 
 	"golang.org/x/tools/go/ssa"
@@ -27,12 +30,12 @@ func init() {
 func runC13(c *Ctx) {
 	c.Trust("go/ssa", "ipld-prime bindnode, schema, dagjson, dagcbor")
 	type ty struct{ pkg, name, proto, unwrap, bytesTo string }
-	types := []ty{
+	tys := []ty{
 		{schemaPkg, "Advertisement", "AdvertisementPrototype", "UnwrapAdvertisement", "BytesToAdvertisement"},
 		{schemaPkg, "EntryChunk", "EntryChunkPrototype", "UnwrapEntryChunk", "BytesToEntryChunk"},
 		{headPkg, "SignedHead", "SignedHeadPrototype", "UnwrapSignedHead", ""},
 	}
-	for _, t := range types {
+	for _, t := range tys {
 		uw := c.Func(t.pkg, t.unwrap)
 		if uw == nil {
 			c.Unk("C13.U1-foreign-prototype-rebuilt", t.pkg+"."+t.unwrap, token.NoPos, "not found")
@@ -239,6 +242,48 @@ func runC13(c *Ctx) {
 	c.Floor("C13.U6-unwrapped-unmodified", 3)
 	c.Floor("C13.U4-tonode-total", 4)
 
+	// ---- U8 the Go structs mirror the IPLD schema field for field, in order: bindnode reads Go fields by position when
+	// encoding and writes them by name when decoding, so two same-typed fields in another order than the schema's
+	// are exchanged on the wire (and a generic-prototype decode then disagrees with a typed one)
+	nMirror := 0
+	for _, rel := range []string{schemaPkg, headPkg} {
+		p := c.pkg(rel)
+		if p == nil {
+			continue
+		}
+		files, _ := filepath.Glob(filepath.Join(c.Repo, rel, "*.ipldsch"))
+		for _, sf := range files {
+			data, err := os.ReadFile(sf)
+			if err != nil {
+				c.Unk("C13.U8-go-structs-mirror-schema", rel+" › "+filepath.Base(sf), token.NoPos, "schema file unreadable")
+				continue
+			}
+			for name, fields := range ipldStructs(string(data)) {
+				tn, ok := p.Types.Scope().Lookup(name).(*types.TypeName)
+				if !ok {
+					continue
+				}
+				st, ok := tn.Type().Underlying().(*types.Struct)
+				if !ok {
+					continue
+				}
+				nMirror++
+				var goNames []string
+				for i := 0; i < st.NumFields(); i++ {
+					goNames = append(goNames, st.Field(i).Name())
+				}
+				same := len(goNames) == len(fields)
+				for i := range fields {
+					if same && !strings.EqualFold(goNames[i], fields[i]) {
+						same = false
+					}
+				}
+				c.Check(same, "C13.U8-go-structs-mirror-schema", rel+"."+name, tn.Pos(), "Go fields ["+strings.Join(goNames, " ")+"] are the schema's, in the schema's order", "the Go struct's fields ["+strings.Join(goNames, " ")+"] are not the schema's ["+strings.Join(fields, " ")+"] in the same order: bindnode encodes by position and decodes by name, so fields are exchanged on the wire")
+			}
+		}
+	}
+	c.Floor("C13.U8-go-structs-mirror-schema", 5)
+
 	// ---- U3 decode helper ---------------------------------------------------------------------------------
 	if d := c.RoleFn("schema.decode"); d != nil {
 		lk := c.Calls(d.SSA, Call("multicodec.LookupDecoder", Op("param", d.SSA.Params[0].Name())))
@@ -348,4 +393,31 @@ func unwrapResult(c *Ctx, uw *ssa.Function) *X {
 		return c.RetX(ret, 0)
 	}
 	return nil
+}
+
+// ipldStructs extracts, from IPLD schema DSL text, the field names of every
+// struct type in declaration order.
+func ipldStructs(src string) map[string][]string {
+	out := map[string][]string{}
+	cur := ""
+	for _, line := range strings.Split(src, "\n") {
+		t := strings.TrimSpace(line)
+		if i := strings.Index(t, "#"); i >= 0 {
+			t = strings.TrimSpace(t[:i])
+		}
+		if t == "" {
+			continue
+		}
+		f := strings.Fields(t)
+		switch {
+		case cur == "" && len(f) >= 3 && f[0] == "type" && f[2] == "struct":
+			cur = f[1]
+			out[cur] = nil
+		case cur != "" && strings.HasPrefix(t, "}"):
+			cur = ""
+		case cur != "":
+			out[cur] = append(out[cur], f[0])
+		}
+	}
+	return out
 }
